@@ -33,16 +33,24 @@ const (
 	SPath                  // a scalar memory cell reachable from a pointer parameter: "p0.stream"
 	SElem                  // the elements of the slice or string at a path / parameter: "p0.values", "p1"
 	SLen                   // the length of the slice at a path / parameter
+	SCall                  // result #Index of the Ord-th static call of Callee in the function
+	SValue                 // an SSA value selected by Pick
+	SRange                 // the rune of the Ord-th range-over-string loop in the function
 )
 
 type Subj struct {
-	Name  string
-	Kind  SubjKind
-	Param int
-	Path  string
-	Type  types.Type // value type (integer bounds, float, string)
-	Dyn   types.Type // SElem over interface elements: the dynamic type to bind
-	Extra []Val      // additional representatives
+	Name   string
+	Kind   SubjKind
+	Param  int
+	Path   string
+	Type   types.Type                         // value type (integer bounds, float, string)
+	Dyn    types.Type                         // SElem over interface elements: the dynamic type to bind
+	Extra  []Val                              // additional representatives
+	Callee string                             // SCall: "strconv.Atoi", "(*sml.lexer).peek"
+	Ord    int                                // SCall / SRange: which occurrence (source order)
+	Index  int                                // SCall: result index (-1: the single result)
+	Pick   func(fn *ssa.Function) []ssa.Value // SValue
+	NoReps bool                               // use only Extra as representatives
 }
 
 type DomainSpec struct {
@@ -58,6 +66,13 @@ type DomainSpec struct {
 	What   string                 // human description of the domain
 	Bind   func(in *Interp)       // optional extra setup
 	Want   func(v []Val) []string // optional: expected properties of returned value (not used yet)
+	// Survive overrides "some return is reachable" as the meaning of acceptance.
+	Survive func(out Outcome, in *Interp) bool
+	// Sink switches to sink mode: a tuple is refused when it reaches a sink
+	// call that is not reached by every tuple (a diagnostic specific to it).
+	Sink func(callee *ssa.Function) bool
+	// PreBind installs further bindings for every run (after subjects).
+	PreBind func(in *Interp, tuple []Val)
 }
 
 type DomainResult struct {
@@ -301,6 +316,48 @@ func isInduction(v ssa.Value) bool {
 	return hasConst && hasStep
 }
 
+// callSites returns, in source order, the static calls of the named callee in fn.
+func callSites(fn *ssa.Function, callee string) []*ssa.Call {
+	var out []*ssa.Call
+	for _, b := range fn.Blocks {
+		for _, instr := range b.Instrs {
+			if c, ok := instr.(*ssa.Call); ok {
+				if sc := c.Common().StaticCallee(); sc != nil && (FnName(sc) == callee || calleeFullName(sc) == callee) {
+					out = append(out, c)
+				}
+			}
+		}
+	}
+	sort.Slice(out, func(i, j int) bool { return out[i].Pos() < out[j].Pos() })
+	return out
+}
+
+func calleeFullName(f *ssa.Function) string {
+	if f.Pkg == nil {
+		return f.Name()
+	}
+	if f.Signature.Recv() != nil {
+		return FnName(f)
+	}
+	return f.Pkg.Pkg.Path() + "." + f.Name()
+}
+
+// stringRangeSites returns the rune values of the range-over-string loops of fn.
+func stringRangeSites(fn *ssa.Function) []ssa.Value {
+	var out []ssa.Value
+	for _, b := range fn.Blocks {
+		for _, instr := range b.Instrs {
+			if ex, ok := instr.(*ssa.Extract); ok && ex.Index == 2 {
+				if nx, ok := ex.Tuple.(*ssa.Next); ok && nx.IsString {
+					out = append(out, ex)
+				}
+			}
+		}
+	}
+	sort.Slice(out, func(i, j int) bool { return out[i].Pos() < out[j].Pos() })
+	return out
+}
+
 // CheckDomain evaluates the spec and reports one obligation.
 func CheckDomain(p *Prog, r *Report, spec DomainSpec) DomainResult {
 	var res DomainResult
@@ -311,80 +368,122 @@ func CheckDomain(p *Prog, r *Report, spec DomainSpec) DomainResult {
 	for _, c := range spec.Consts {
 		cuts = append(cuts, big.NewInt(c))
 	}
-
 	args0 := defaultArgs(spec.Fn)
 	for i, v := range spec.Args {
 		args0[i] = v
 	}
 
-	// region starts for element subjects
+	// resolve the SSA values that stand for each subject
+	bindSites := make([][]ssa.Value, len(spec.Subjs)) // bound in whole-function runs
 	type region struct {
-		site  ssa.Value
-		subj  int
-		outer map[ssa.Value]Val
+		site ssa.Value
+		subj int
 	}
 	var regions []region
-	hasElem := false
+	regionSubj := -1
 	for si, s := range spec.Subjs {
-		if s.Kind != SElem {
-			continue
-		}
-		hasElem = true
-		path := s.Path
-		if path == "" {
-			path = fmt.Sprintf("p%d", s.Param)
-		}
-		env := map[string]Val{}
-		for k, v := range spec.Env {
-			env[k] = v
-		}
-		if strings.Contains(path, ".") {
-			env[path] = Val{K: KSlice, S: path, Len: -1}
-		}
-		sites := elemSites(p, spec.Fn, args0, env, path)
-		for _, st := range sites {
-			regions = append(regions, region{site: st, subj: si})
+		switch s.Kind {
+		case SElem:
+			path := s.Path
+			if path == "" {
+				path = fmt.Sprintf("p%d", s.Param)
+			}
+			env := map[string]Val{}
+			for k, v := range spec.Env {
+				env[k] = v
+			}
+			if strings.Contains(path, ".") {
+				env[path] = Val{K: KSlice, S: path, Len: -1}
+			}
+			for _, st := range elemSites(p, spec.Fn, args0, env, path) {
+				regions = append(regions, region{st, si})
+			}
+			regionSubj = si
+		case SRange:
+			sites := stringRangeSites(spec.Fn)
+			if s.Ord < len(sites) {
+				regions = append(regions, region{sites[s.Ord], si})
+			}
+			regionSubj = si
+		case SCall:
+			cs := callSites(spec.Fn, s.Callee)
+			if s.Ord >= len(cs) {
+				r.unk(spec.Rule, spec.Key, pos, fmt.Sprintf("call #%d of %s not found in %s", s.Ord, s.Callee, FnName(spec.Fn)))
+				return res
+			}
+			call := cs[s.Ord]
+			if s.Index < 0 {
+				bindSites[si] = []ssa.Value{call}
+			} else if refs := call.Referrers(); refs != nil {
+				for _, ref := range *refs {
+					if ex, ok := ref.(*ssa.Extract); ok && ex.Index == s.Index {
+						bindSites[si] = append(bindSites[si], ex)
+					}
+				}
+			}
+			if len(bindSites[si]) == 0 {
+				r.unk(spec.Rule, spec.Key, pos, fmt.Sprintf("result %d of call #%d of %s is not used in %s", s.Index, s.Ord, s.Callee, FnName(spec.Fn)))
+				return res
+			}
+		case SValue:
+			bindSites[si] = s.Pick(spec.Fn)
+			if len(bindSites[si]) == 0 {
+				r.unk(spec.Rule, spec.Key, pos, "the value designated as "+s.Name+" was not found in "+FnName(spec.Fn))
+				return res
+			}
 		}
 	}
-	if hasElem && len(regions) == 0 {
-		r.unk(spec.Rule, spec.Key, pos, "no iteration over the subject's elements found in "+FnName(spec.Fn)+": the guard on the elements is missing or has a shape the rule does not recognise")
+	if regionSubj >= 0 && len(regions) == 0 {
+		r.unk(spec.Rule, spec.Key, pos, "no iteration over "+spec.Subjs[regionSubj].Name+" found in "+FnName(spec.Fn)+": the guard on the elements is missing or has a shape the rule does not recognise")
 		return res
 	}
 
 	observed := map[string]*big.Int{}
+	type evalOut struct {
+		tuple    []Val
+		survives bool
+		sinks    map[ssa.Instruction]bool
+		opaque   []string
+		stuck    []string
+	}
+	var outs []evalOut
 	for iter := 0; iter < 4; iter++ {
-		// representatives per subject
 		reps := make([][]Val, len(spec.Subjs))
 		for si, s := range spec.Subjs {
-			switch {
-			case isFloatType(s.Type):
-				for _, f := range floatReps(s.Type) {
-					reps[si] = append(reps[si], Val{K: KFloat, F: f, Dep: true})
-				}
-			case isStringType(s.Type):
-				for _, str := range strReps(append(append([]string{}, codeStrs...), spec.Strs...)) {
-					reps[si] = append(reps[si], Val{K: KStr, S: str, Dep: true})
-				}
-			case isIntType(s.Type):
-				all := append([]*big.Int{}, cuts...)
-				for _, o := range observed {
-					all = append(all, o)
-				}
-				for _, i := range intReps(s.Type, all, sizes) {
-					reps[si] = append(reps[si], valOfType(s.Type, i))
-				}
-			default:
-				if b, ok := s.Type.Underlying().(*types.Basic); ok && b.Info()&types.IsBoolean != 0 {
-					reps[si] = []Val{{K: KBool, B: false, Dep: true}, {K: KBool, B: true, Dep: true}}
+			if !s.NoReps {
+				switch {
+				case isFloatType(s.Type):
+					for _, f := range floatReps(s.Type) {
+						reps[si] = append(reps[si], Val{K: KFloat, F: f, Dep: true})
+					}
+				case isStringType(s.Type):
+					for _, str := range strReps(append(append([]string{}, codeStrs...), spec.Strs...)) {
+						reps[si] = append(reps[si], Val{K: KStr, S: str, Dep: true})
+					}
+				case isIntType(s.Type):
+					all := append([]*big.Int{}, cuts...)
+					for _, o := range observed {
+						all = append(all, o)
+					}
+					for _, i := range intReps(s.Type, all, sizes) {
+						reps[si] = append(reps[si], valOfType(s.Type, i))
+					}
+				default:
+					if b, ok := s.Type.Underlying().(*types.Basic); ok && b.Info()&types.IsBoolean != 0 {
+						reps[si] = []Val{{K: KBool, B: false, Dep: true}, {K: KBool, B: true, Dep: true}}
+					}
 				}
 			}
-			reps[si] = append(reps[si], s.Extra...)
+			for _, e := range s.Extra {
+				e.Dep = true
+				reps[si] = append(reps[si], e)
+			}
 			if len(reps[si]) == 0 {
 				r.unk(spec.Rule, spec.Key, pos, "no representatives for subject "+s.Name)
 				return res
 			}
 		}
-		res = DomainResult{}
+		outs = nil
 		newCut := false
 		tuple := make([]Val, len(spec.Subjs))
 		var rec func(k int)
@@ -396,54 +495,86 @@ func CheckDomain(p *Prog, r *Report, spec DomainSpec) DomainResult {
 				}
 				return
 			}
-			res.Tuples++
-			in := NewInterp(p)
-			in.CutSink = func(c *big.Int) {
-				if _, ok := observed[c.String()]; !ok {
-					observed[c.String()] = c
-					newCut = true
-				}
-			}
-			args := append([]Val{}, args0...)
-			for kk, vv := range spec.Env {
-				in.PathBind[kk] = vv
-			}
-			for si, s := range spec.Subjs {
-				v := tuple[si]
-				path := s.Path
-				if path == "" && (s.Kind == SElem || s.Kind == SLen) {
-					path = fmt.Sprintf("p%d", s.Param)
-				}
-				switch s.Kind {
-				case SParam:
-					args[s.Param] = v
-				case SPath:
-					in.PathBind[path] = v
-				case SLen:
-					if strings.Contains(path, ".") {
-						in.PathBind[path] = Val{K: KSlice, S: path, Len: -1}
+			eo := evalOut{tuple: append([]Val{}, tuple...), sinks: map[ssa.Instruction]bool{}}
+			mk := func() (*Interp, []Val) {
+				in := NewInterp(p)
+				in.CutSink = func(c *big.Int) {
+					if _, ok := observed[c.String()]; !ok {
+						observed[c.String()] = c
+						newCut = true
 					}
-					in.PathBind["len("+path+")"] = v
-				case SElem:
-					if strings.Contains(path, ".") {
-						if isStringType(fieldTypeOfPath(spec.Fn, path)) {
-							// string field: elements come from Range/Next
-						} else {
+				}
+				args := append([]Val{}, args0...)
+				for kk, vv := range spec.Env {
+					in.PathBind[kk] = vv
+				}
+				bound := map[ssa.Value]Val{}
+				for si, s := range spec.Subjs {
+					v := tuple[si]
+					path := s.Path
+					if path == "" && (s.Kind == SElem || s.Kind == SLen) {
+						path = fmt.Sprintf("p%d", s.Param)
+					}
+					switch s.Kind {
+					case SParam:
+						args[s.Param] = v
+					case SPath:
+						in.PathBind[path] = v
+					case SLen:
+						if strings.Contains(path, ".") {
 							in.PathBind[path] = Val{K: KSlice, S: path, Len: -1}
+						}
+						in.PathBind["len("+path+")"] = v
+					case SElem:
+						if strings.Contains(path, ".") && !isStringType(fieldTypeOfPath(spec.Fn, path)) {
+							in.PathBind[path] = Val{K: KSlice, S: path, Len: -1}
+						}
+					case SCall, SValue:
+						for _, site := range bindSites[si] {
+							bound[site] = v
+						}
+					}
+				}
+				if len(bound) > 0 {
+					in.Bind = func(v ssa.Value, fr *frame) (Val, bool) {
+						b, ok := bound[v]
+						return b, ok
+					}
+				}
+				if spec.Bind != nil {
+					spec.Bind(in)
+				}
+				if spec.PreBind != nil {
+					spec.PreBind(in, tuple)
+				}
+				return in, args
+			}
+			collectSinks := func(in *Interp) {
+				if spec.Sink == nil {
+					return
+				}
+				for instr := range in.ReachedAny {
+					if c, ok := instr.(*ssa.Call); ok {
+						if sc := c.Common().StaticCallee(); sc != nil && spec.Sink(sc) {
+							eo.sinks[instr] = true
 						}
 					}
 				}
 			}
-			if spec.Bind != nil {
-				spec.Bind(in)
-			}
-			survives := false
-			if !hasElem {
+			if regionSubj < 0 {
+				in, args := mk()
 				out := in.Run(spec.Fn, args, nil)
-				survives = out.CanReturn
+				eo.survives = out.CanReturn
+				if spec.Survive != nil {
+					eo.survives = spec.Survive(out, in)
+				}
+				collectSinks(in)
+				if in.OpaqueSubject {
+					eo.opaque = in.OpaqueAt
+				}
+				eo.stuck = in.Stuck
 			} else {
-				// a value survives if no region refuses it
-				survives = true
+				eo.survives = true
 				for _, rg := range regions {
 					s := spec.Subjs[rg.subj]
 					ev := tuple[rg.subj]
@@ -452,61 +583,83 @@ func CheckDomain(p *Prog, r *Report, spec DomainSpec) DomainResult {
 						ev = Val{K: KIface, T: s.Dyn, Inner: &inner, Dep: true}
 					}
 					site := rg.site
-					in2 := NewInterp(p)
-					in2.CutSink = in.CutSink
-					for kk, vv := range in.PathBind {
-						in2.PathBind[kk] = vv
-					}
-					// phase 1: whole function without the element bound
-					o1 := in2.Run(spec.Fn, args, nil)
+					in, args := mk()
+					o1 := in.Run(spec.Fn, args, nil) // phase 1: whole function, element unbound
 					outer := o1.Frame.Vals()
-					in2.Bind = func(v ssa.Value, fr *frame) (Val, bool) {
+					prev := in.Bind
+					in.Bind = func(v ssa.Value, fr *frame) (Val, bool) {
 						if v == site {
 							return ev, true
 						}
+						if prev != nil {
+							return prev(v, fr)
+						}
 						return Val{}, false
 					}
+					in.OpaqueSubject, in.OpaqueAt = false, nil
 					blk := site.(ssa.Instruction).Block()
-					o2 := in2.RunOuter(spec.Fn, args, blk, outer)
+					o2 := in.RunOuter(spec.Fn, args, blk, outer)
 					ok := o2.CanReturn || o2.Frame.reentered
+					if spec.Survive != nil {
+						ok = spec.Survive(o2, in)
+					}
 					if !ok {
-						survives = false
+						eo.survives = false
 					}
-					if in2.OpaqueSubject {
-						in.OpaqueSubject = true
-						in.OpaqueAt = append(in.OpaqueAt, in2.OpaqueAt...)
+					collectSinks(in)
+					if in.OpaqueSubject {
+						eo.opaque = append(eo.opaque, in.OpaqueAt...)
 					}
-					in.Stuck = append(in.Stuck, in2.Stuck...)
+					eo.stuck = append(eo.stuck, in.Stuck...)
 				}
 			}
-			want := spec.Accept(tuple)
-			if len(in.Stuck) > 0 {
-				res.Stuck = append(res.Stuck, in.Stuck...)
-			}
-			if survives != want {
-				var parts []string
-				for si, s := range spec.Subjs {
-					parts = append(parts, s.Name+"="+tuple[si].String())
-				}
-				verb := "returns normally"
-				if !survives {
-					verb = "always refuses"
-				}
-				exp := "must be refused"
-				if want {
-					exp = "must be accepted"
-				}
-				msg := fmt.Sprintf("%s: %s %s but %s (domain: %s)", strings.Join(parts, ", "), FnName(spec.Fn), verb, exp, spec.What)
-				if in.OpaqueSubject {
-					res.Opaque = append(res.Opaque, msg+" [a guard on the subject could not be evaluated at "+strings.Join(uniq(in.OpaqueAt), ",")+"]")
-				} else {
-					res.Mismatch = append(res.Mismatch, msg)
-				}
-			}
+			outs = append(outs, eo)
 		}
 		rec(0)
 		if !newCut {
 			break
+		}
+	}
+	// sink mode: a tuple is refused when it reaches a diagnostic not common to all tuples
+	if spec.Sink != nil {
+		common := map[ssa.Instruction]int{}
+		for _, eo := range outs {
+			for s := range eo.sinks {
+				common[s]++
+			}
+		}
+		for i := range outs {
+			outs[i].survives = true
+			for s := range outs[i].sinks {
+				if common[s] < len(outs) {
+					outs[i].survives = false
+				}
+			}
+		}
+	}
+	res.Tuples = len(outs)
+	for _, eo := range outs {
+		res.Stuck = append(res.Stuck, eo.stuck...)
+		want := spec.Accept(eo.tuple)
+		if eo.survives == want {
+			continue
+		}
+		var parts []string
+		for si, s := range spec.Subjs {
+			parts = append(parts, s.Name+"="+eo.tuple[si].String())
+		}
+		verb, exp := "accepts", "must be refused"
+		if !eo.survives {
+			verb = "always refuses"
+		}
+		if want {
+			exp = "must be accepted"
+		}
+		msg := fmt.Sprintf("%s: %s %s but %s (domain: %s)", strings.Join(parts, ", "), FnName(spec.Fn), verb, exp, spec.What)
+		if len(eo.opaque) > 0 {
+			res.Opaque = append(res.Opaque, msg+" [a guard on the subject could not be evaluated at "+strings.Join(uniq(eo.opaque), ",")+"]")
+		} else {
+			res.Mismatch = append(res.Mismatch, msg)
 		}
 	}
 	res.Cuts = len(observed)
